@@ -21,6 +21,13 @@ theorem getopts_grouping_invariant (spec : Str) (args : List Str) :
     obsOf args (walkAll spec args) = specObs spec args :=
   (walk_separate spec args).symm
 
+/-- ★ The Spec function `separate` meets its description: in its output every group in option position is
+    a single letter (or contains the letter `-`, which cannot be split off) and every option-argument is
+    an argument of its own — so `getopts_grouping_invariant` really compares a vector with a *fully
+    separated* spelling (it would be empty if `separate` did nothing). -/
+theorem separate_is_separated (spec : Str) (args : List Str) : isSeparated spec (separate spec args) = true :=
+  separate_isSeparated spec args.length args (Nat.le_refl _)
+
 /-- ☆ The loop of calls of `next`, with `$OPTIND = arg[:char]` carried between them and the fuel
     `fuelFor`, always terminates with the call that returns non-zero, and observes exactly what a
     one-pass structural walk of the vector observes. -/
@@ -98,5 +105,9 @@ example : (runHistory freshEnv [.session .literal ['a','b'] [['-','a']] none,
 /-- garbage in `$OPTIND` with no remembered state is refused as well -/
 example : (runHistory freshEnv [.assign ['x'], .session .implicit ['a'] [['-','a']] none]).map (·.map (·.fin)) =
     [none, some (some 2)] := by decide
+
+/-- `-axbY Z` with `b:` is not separated; its separated spelling is -/
+example : isSeparated ['a','b',':'] [['-','a','x','b','Y'], ['Z']] = false := by decide
+example : isSeparated ['a','b',':'] (separate ['a','b',':'] [['-','a','x','b','Y'], ['Z']]) = true := by decide
 
 end YashModel.Args.Getopts
